@@ -276,6 +276,13 @@ def run(ctx):
     for _ in range(200 if quick else 4000):
         n = rng.randrange(1, 14)
         v = [rng.randrange(0, 12) * 0.25 for _ in range(n)] if rng.random() < 0.4 else rng.sample([i * 0.5 for i in range(40)], n)
+        u = rng.random()
+        if u < 0.15:
+            v = [a - 5.0 for a in v]                          # negative values
+        elif u < 0.25:
+            v = [a * 2.0 ** 40 for a in v]
+        elif u < 0.35:
+            v = [a * 2.0 ** -40 for a in v]
         ranks(ctx, v, 'rank')
 
 
